@@ -165,7 +165,10 @@ def run(ctx: Ctx):
         for c in walk_local(init):
             if isinstance(c, ast.Call) and isinstance(c.func, ast.Attribute) and norm(c.func.value) in ups and c.func.attr in ("append", "insert", "extend", "__setitem__"):
                 el = c.args[-1] if c.args else None
-                okp = c.func.attr == "append" and isinstance(el, ast.Call) and dotted(el.func) in ("partial", "functools.partial")
+                els = [el]
+                if isinstance(el, ast.Name):  # a local that holds the element: every value it is given counts
+                    els = [x.value for x in stmts_local(init.body) if isinstance(x, ast.Assign) and any(norm(t) == el.id for t in x.targets)] or [el]
+                okp = c.func.attr == "append" and all(isinstance(e_, ast.Call) and dotted(e_.func) in ("partial", "functools.partial") for e_ in els)
                 ctx.ob("R-C15-3", f"annotate.SpanUpdater.__init__/updaters-element:{c.lineno - init.lineno}", okp,
                        f"every element stored in the updaters list is partial(<callable>): `{norm(c)[:60]}`", node=c, mod=am, nontrivial=False)
         for c in walk_local(init):
@@ -176,8 +179,9 @@ def run(ctx: Ctx):
                     pure = not any(isinstance(x, (ast.Call, ast.NamedExpr, ast.Await, ast.Yield)) and not (isinstance(x, ast.Call) and dotted(x.func) in ("min", "max", "len", "abs", "int"))
                                    for x in ast.walk(f0.body))
                     what = "lambda"
-                elif isinstance(f0, ast.Name) and f"annotate.SpanUpdater.__init__.{f0.id}" in eff.funcs:
-                    pure = not eff.tw[f"annotate.SpanUpdater.__init__.{f0.id}"]
+                elif isinstance(f0, ast.Name) and (f"annotate.SpanUpdater.__init__.{f0.id}" in eff.funcs or f"annotate.{f0.id}" in eff.funcs):
+                    fq_ = f"annotate.SpanUpdater.__init__.{f0.id}" if f"annotate.SpanUpdater.__init__.{f0.id}" in eff.funcs else f"annotate.{f0.id}"
+                    pure = not eff.tw[fq_]
                     what = f0.id
                 else:
                     pure, what = False, norm(f0)[:30]
